@@ -136,6 +136,7 @@ func init() {
 			base.run(c)
 			checkC03Conserve(c, budget(c.Tier, 1500, 60000))
 			checkC03Handed(c, budget(c.Tier, 600, 30000))
+			checkBadPositional(c, budget(c.Tier, 300, 10000), "C03")
 		}}
 	}
 	parseProp("C04", caseRule+"emphasis: arbitrary bytes, malformed tokens, PrintErrors", 2500, 100000, func(p *Profile) {
